@@ -134,6 +134,16 @@ func buildAPIPool(c *Ctx, p *Profile, sch *Schema, dir string) *apiPool {
 		s.Def(2, arch, 34, []FieldDef{{5, 4, 0x86}}, nil)
 		s.Data(2, wire(u32le(0x3A000000), arch))
 		add(s.Bytes(), "compressed timestamps and a local time before any reference")
+		// the other way round: the only reference is a local time, compressed headers follow
+		s = newStream(12, false)
+		s.FileId(0, arch, 4)
+		s.Def(2, arch, 34, []FieldDef{{5, 4, 0x86}}, nil)
+		s.Data(2, wire(u32le(0x3A000000+uint32(k)), arch))
+		s.Def(1, arch, 20, []FieldDef{{3, 1, 2}}, nil)
+		s.Compressed(1, 3, []byte{97})
+		s.Compressed(1, 30, []byte{96})
+		s.Compressed(1, 2, []byte{95})
+		add(s.Bytes(), "a local time as the only reference, then compressed timestamps")
 	}
 	// local times whose zone offsets differ by seconds (a skewed device clock)
 	for _, off := range []uint32{3600, 3620, 3659} {
@@ -229,7 +239,7 @@ func execCall(p *Profile, ap *apiPool, h histCall, full bool) callResult {
 	res := callResult{Key: h.key(), G: h.G}
 	switch h.API {
 	case "decode", "chained", "integrity":
-		cl := p.runCall(0, h.API, ap.input(h.Idx), plain, CallOpts{UF: 1, UM: 1}, false)
+		cl := p.runCall(0, h.API, ap.input(h.Idx), plain, CallOpts{UF: 1, UM: 1, Shared: true}, false)
 		v := map[string]interface{}{"err": cl.Ret.Err, "panic": cl.Ret.Panic, "files": cl.Ret.Files, "consumed": cl.Ret.Consumed}
 		res.Digest = digest(v)
 		if full {
@@ -510,7 +520,7 @@ func runC08(c *Ctx) {
 	for _, a := range allCalls {
 		for _, b := range allCalls {
 			sibPair := a.API != "encode" && b.API != "encode" && sib[a.Idx] && sib[b.Idx]
-			if c.thorough() || (a.Idx+b.Idx)%2 == 0 || a.API == "encode" && b.API == "encode" || sibPair {
+			if c.thorough() || (a.Idx+b.Idx)%2 == 0 || a.API == "encode" && b.API == "encode" || sibPair || b.API == "decode" {
 				histories = append(histories, []histCall{a, b})
 			}
 		}
